@@ -446,6 +446,268 @@ fn run_scenario(rt: &Arc<tokio::runtime::Runtime>, id: &str, sc: &Scn) -> String
     )
 }
 
+/// HTTPS: the accept loop has a separate arm for TLS connections, so graceful shutdown is
+/// exercised there too.  `before` in-flight requests are released (and done) before close()
+/// is requested, `after` only afterwards; `idle` keep-alive connections have been served and
+/// stay open.  Every client stays connected.  Same line format as the plain scenarios.
+fn run_tls_scenario(
+    rt: &Arc<tokio::runtime::Runtime>,
+    id: &str,
+    mode: HandlerTaskMode,
+    kit: &TlsKit,
+    before: usize,
+    after: usize,
+    idle: usize,
+) -> String {
+    let ctx = Ctx::new();
+    let server = start_opts(rt, &ctx, mode, Some(kit.server.clone()));
+    let addr = server.local_addr();
+    let mut reqs: Vec<(u32, u32, String)> = Vec::new();
+    let mut late = 0usize;
+    let mut c = 0u32;
+    let mut staying: Vec<(TlsStream, u32, Option<u32>)> = Vec::new();
+    let mut rel_after: Vec<u32> = Vec::new();
+    let read_ok = |s: &mut TlsStream| -> bool {
+        let mut got = Vec::new();
+        let mut buf = [0u8; 4096];
+        loop {
+            if let Some(p) = got.windows(4).position(|w| w == b"\r\n\r\n") {
+                if got.len() >= p + 4 + 2 {
+                    break;
+                }
+            }
+            match s.read(&mut buf) {
+                Ok(0) | Err(_) => break,
+                Ok(n) => got.extend_from_slice(&buf[..n]),
+            }
+        }
+        got.starts_with(b"HTTP/1.1 200") && got.ends_with(b"ok")
+    };
+    for _ in 0..idle {
+        c += 1;
+        let r = 10 * c;
+        let Some(mut s) = tls_connect(addr, kit) else { late += 1; continue };
+        let _ = s.sock.set_read_timeout(Some(Duration::from_secs(20)));
+        ctx.release(r);
+        ctx.log(Ev::ReqSent(c, r));
+        let _ = s.write_all(&get(&format!("/w/{}", r)));
+        let _ = s.flush();
+        if read_ok(&mut s) {
+            ctx.log(Ev::RespDelivered(r));
+        } else {
+            late += 1;
+        }
+        reqs.push((r, c, "earlier".into()));
+        staying.push((s, c, None));
+    }
+    for i in 0..(before + after) {
+        c += 1;
+        let r = 10 * c;
+        let Some(mut s) = tls_connect(addr, kit) else { late += 1; continue };
+        let _ = s.sock.set_read_timeout(Some(Duration::from_secs(20)));
+        ctx.log(Ev::ReqSent(c, r));
+        let _ = s.write_all(&get(&format!("/w/{}", r)));
+        let _ = s.flush();
+        if !ctx.wait_for(&Ev::Start(r), DEADLINE) {
+            late += 1;
+        }
+        reqs.push((r, c, "stays".into()));
+        staying.push((s, c, Some(r)));
+        if i < before {
+            ctx.release(r);
+            if !ctx.wait_for(&Ev::Done(r), DEADLINE) {
+                late += 1;
+            }
+        } else {
+            rel_after.push(r);
+        }
+    }
+    let watch: Vec<u32> = staying.iter().map(|(_, c, _)| *c).collect();
+    let released = Arc::new(AtomicUsize::new(0));
+    let mut tasks = Vec::new();
+    let mut waiter = |i: u32, tasks: &mut Vec<tokio::task::JoinHandle<()>>| {
+        let f = server.wait_for_shutdown();
+        let (ctx, released) = (ctx.clone(), released.clone());
+        tasks.push(rt.spawn(async move {
+            let res = f.await;
+            ctx.log(Ev::WaiterReleased(i, res.is_ok()));
+            released.fetch_add(1, Ordering::SeqCst);
+        }));
+    };
+    waiter(1, &mut tasks);
+    let w2 = server.wait_for_shutdown();
+    let w3 = server.wait_for_shutdown();
+    ctx.log(Ev::CloseRequested);
+    let close_task = {
+        let (ctx, released) = (ctx.clone(), released.clone());
+        rt.spawn(async move {
+            let res = server.close().await;
+            ctx.log(Ev::WaiterReleased(0, res.is_ok()));
+            released.fetch_add(1, Ordering::SeqCst);
+            res
+        })
+    };
+    {
+        let (ctx, released) = (ctx.clone(), released.clone());
+        tasks.push(rt.spawn(async move {
+            let res = w2.await;
+            ctx.log(Ev::WaiterReleased(2, res.is_ok()));
+            released.fetch_add(1, Ordering::SeqCst);
+        }));
+    }
+    let mut readers = Vec::new();
+    for (mut s, c, pending) in staying.drain(..) {
+        let ctx = ctx.clone();
+        readers.push(std::thread::spawn(move || {
+            if let Some(r) = pending {
+                let mut got = Vec::new();
+                let mut buf = [0u8; 4096];
+                loop {
+                    if let Some(p) = got.windows(4).position(|w| w == b"\r\n\r\n") {
+                        if got.len() >= p + 4 + 2 {
+                            break;
+                        }
+                    }
+                    match s.read(&mut buf) {
+                        Ok(0) | Err(_) => break,
+                        Ok(n) => got.extend_from_slice(&buf[..n]),
+                    }
+                }
+                if got.starts_with(b"HTTP/1.1 200") && got.ends_with(b"ok") {
+                    ctx.log(Ev::RespDelivered(r));
+                } else {
+                    return;
+                }
+            }
+            // then the server closes the connection (close_notify, FIN or reset)
+            let mut buf = [0u8; 256];
+            loop {
+                match s.read(&mut buf) {
+                    Ok(0) => {
+                        ctx.log(Ev::ConnClosed(c));
+                        return;
+                    }
+                    Ok(_) => continue,
+                    Err(e) => match e.kind() {
+                        std::io::ErrorKind::WouldBlock | std::io::ErrorKind::TimedOut => return,
+                        std::io::ErrorKind::Interrupted => continue,
+                        _ => {
+                            ctx.log(Ev::ConnClosed(c));
+                            return;
+                        }
+                    },
+                }
+            }
+        }));
+    }
+    if !rel_after.is_empty() {
+        std::thread::sleep(Duration::from_millis(30));
+        match TcpStream::connect_timeout(&addr, Duration::from_secs(5)) {
+            Ok(_) => ctx.log(Ev::ConnectAccepted),
+            Err(_) => ctx.log(Ev::ConnectRefused),
+        }
+    }
+    for r in &rel_after {
+        ctx.release(*r);
+    }
+    let closed = rt.block_on(async {
+        match tokio::time::timeout(Duration::from_secs(40), close_task).await {
+            Ok(Ok(Ok(()))) => "ok",
+            Ok(Ok(Err(_))) => "err",
+            Ok(Err(_)) => "panicked",
+            Err(_) => "timeout",
+        }
+    });
+    {
+        let (ctx, released) = (ctx.clone(), released.clone());
+        tasks.push(rt.spawn(async move {
+            let res = w3.await;
+            ctx.log(Ev::WaiterReleased(3, res.is_ok()));
+            released.fetch_add(1, Ordering::SeqCst);
+        }));
+    }
+    rt.block_on(async {
+        for t in tasks {
+            let _ = tokio::time::timeout(DEADLINE, t).await;
+        }
+    });
+    if closed != "timeout" {
+        // the port: a refused connect, or a listener that is not this server (it cannot
+        // complete a TLS handshake with our kit and answer /id with this server's id)
+        let mut verdict = Ev::ConnectAccepted;
+        for _attempt in 0..30 {
+            match TcpStream::connect_timeout(&addr, Duration::from_secs(5)) {
+                Err(_) => {
+                    verdict = Ev::ConnectRefused;
+                    break;
+                }
+                Ok(s) => {
+                    let selfconn = match (s.local_addr(), s.peer_addr()) {
+                        (Ok(a), Ok(b)) => a == b,
+                        _ => false,
+                    };
+                    drop(s);
+                    if selfconn {
+                        verdict = Ev::ConnectRefused;
+                        break;
+                    }
+                    match tls_connect(addr, kit) {
+                        None => {
+                            // accepts TCP but does not speak TLS with us: not this server
+                            verdict = Ev::ConnectRefused;
+                            break;
+                        }
+                        Some(mut t) => {
+                            let _ = t.sock.set_read_timeout(Some(Duration::from_millis(400)));
+                            let _ = t.write_all(&get("/id"));
+                            let _ = t.flush();
+                            let body = tls_read_to_end(&mut t);
+                            if !body.is_empty() {
+                                if !body.ends_with(format!("{}", ctx.id).as_bytes()) {
+                                    verdict = Ev::ConnectRefused;
+                                }
+                                break;
+                            }
+                            std::thread::sleep(Duration::from_millis(100));
+                        }
+                    }
+                }
+            }
+        }
+        ctx.log(verdict);
+    }
+    for t in readers {
+        let _ = t.join();
+    }
+    ctx.release_all();
+    let log = ctx.snapshot();
+    reqs.sort();
+    let reqs_s = if reqs.is_empty() {
+        "-".to_string()
+    } else {
+        reqs.iter().map(|(r, c, k)| format!("{}:{}:{}", r, c, k)).collect::<Vec<_>>().join(";")
+    };
+    let watch_s = if watch.is_empty() {
+        "-".to_string()
+    } else {
+        watch.iter().map(|c| c.to_string()).collect::<Vec<_>>().join(",")
+    };
+    format!(
+        "sd {} {} plan=tls,before={},after={},idle={},half=0 reqs={} watch={} nwait=4 {} => closed={} released={} late={}",
+        id,
+        mode_name(mode),
+        before,
+        after,
+        idle,
+        reqs_s,
+        watch_s,
+        enc_log(&log),
+        closed,
+        released.load(Ordering::SeqCst),
+        late
+    )
+}
+
 fn main() {
     quiet_handler_panics();
     let rt = Arc::new(
@@ -558,6 +820,25 @@ fn main() {
     let mut out = std::io::BufWriter::new(std::io::stdout());
     for l in results.lock().unwrap().iter() {
         writeln!(out, "{}", l.as_ref().expect("scenario ran")).unwrap();
+    }
+    // HTTPS servers, one scenario at a time after everything else (their port check cannot
+    // be confused by, or confuse, a plain server that was given the same port meanwhile)
+    {
+        let kit = tls_kit();
+        let mut tk = 0;
+        for &m in &modes {
+            for (b, a, idle) in [(0usize, 0usize, 0usize), (1, 0, 1), (0, 1, 0), (0, 3, 2), (2, 2, 1)] {
+                tk += 1;
+                writeln!(out, "{}", run_tls_scenario(&rt, &format!("t{}", tk), m, &kit, b, a, idle)).unwrap();
+            }
+        }
+        if is_thorough() {
+            for i in 0..40 {
+                tk += 1;
+                let (b, a, idle) = (rng.below(4) as usize, rng.below(5) as usize, rng.below(3) as usize);
+                writeln!(out, "{}", run_tls_scenario(&rt, &format!("t{}", tk), modes[i % 2], &kit, b, a, idle)).unwrap();
+            }
+        }
     }
     for t in half_threads {
         writeln!(out, "{}", t.join().expect("half-sent scenario ran")).unwrap();
